@@ -335,11 +335,12 @@ UnwrapCall ==
        ELSE UNCHANGED <<incFull, rxClosed>> /\ Came("want_read", 0)
 
 Call ==
-    /\ pc = "call" /\ pc' = "flush"
+    /\ pc = "call"
     /\ CASE cur.f = "do_handshake" -> HandshakeCall
          [] cur.f = "write" -> WriteCall
          [] cur.f = "read" -> ReadCall
          [] cur.f = "unwrap" -> UnwrapCall
+    /\ pc' = IF last'.res = "eof" THEN "return" ELSE "flush"   \* any SSLError but WANT_READ/WANT_WRITE is re-raised at once
     /\ UNCHANGED <<cfg, cur, nop, wire, wpart, incEof, sockEof, mfbuf, mfUsed, srvHs, srvWritten, srvWrites,
                    srvClosedTx, srvGot, closed, stimeout, tmo, broken, sched>>
 
@@ -352,7 +353,7 @@ Flush ==
     /\ pc = "flush"
     /\ LET n == DataIn(outgoing)
            sendev == E([Blank EXCEPT !.ev = "ssend", !.res = "ok", !.n = Len(outgoing),
-                                     !.plain = IF Bug = "plaintext_flush" THEN n ELSE 0])
+                                     !.plain = IF Bug = "plaintext_flush" /\ n > 0 THEN 8 ELSE 0])
            gotev == E([Blank EXCEPT !.ev = "srvgot", !.res = "data", !.n = n, !.data = Bytes(CBase, srvGot, n)])
            closeev == E([Blank EXCEPT !.ev = "srvgot", !.res = "close_notify"]) IN
        /\ log' = log \o <<sendev>> \o (IF n > 0 /\ Bug # "send_drops" THEN <<gotev>> ELSE <<>>)
